@@ -698,6 +698,15 @@ func TestC10Parse(t *testing.T) {
 	c10Rule(c)
 	checkRapid(t, c, func(rt *rapid.T) {
 		n := rapid.IntRange(1, 120).Draw(rt, "nframes")
+		// in a third of the scripts the first frames are packet-ins (the messages with the most nested, variable
+		// parts: match, VLAN, IP options, IPv6 extension headers, payload) and more than a pool's worth of frames
+		// follows: the consumer still holds them when every buffer of the pool has been refilled
+		heldPacketIns := 0
+		if gen.Pick(rt, "packet_ins_first", 3) == 0 {
+			heldPacketIns = 1 + gen.Pick(rt, "n_packet_ins_first", 4)
+			n = rapid.IntRange(56, 120).Draw(rt, "nframes_after_packet_ins")
+			c.Label("packet_ins_held_over_a_pool_cycle")
+		}
 		var frames [][]byte
 		var wantKeys []string
 		for i := 0; i < n; i++ {
@@ -706,7 +715,12 @@ func TestC10Parse(t *testing.T) {
 			for k := range of10Kinds {
 				g.Avoid[k] = true
 			}
-			sm := g.SwitchMessage()
+			var sm gen.SwitchMsg
+			if i < heldPacketIns {
+				sm = g.SwitchMessageOf("packet_in")
+			} else {
+				sm = g.SwitchMessage()
+			}
 			sm.Tree.Set("xid", uint64(i+1))
 			b, big := encodeModel(sm.Tree)
 			if big {
